@@ -3,3 +3,9 @@ CLAIMS["C17"] = (
     "Assumed: the pyvc encoding of Python (cross-checked against CPython on sampled inputs each run), z3/cvc5, CPython's struct/int.to_bytes/bytes semantics, UTF-16 codec facts; whole-header round trips are bounded stand-ins, labelled as such in the evidence.",
     "DESIGN.md 7 (C17)",
 )
+
+CLAIMS["C07"] = (
+    "Writer conformance as 'declared equals actual' postconditions, proved for all inputs on the real writer functions of py7zr/archiveinfo.py: every NUMBER/UINT32/UINT64/bool-vector/UTF-16 primitive, every file-property record (names, times, attributes, empty-stream, dummy padding: declared size = bytes that follow), counts and layout of FilesInfo; each emitted field is characterised by a spec decoder transcribed from docs/archive_format.rst.",
+    "Assumed: pyvc encoding of Python, z3/cvc5, CPython struct/bytes, UTF-16 codec facts, CRC32 as an uninterpreted function; acceptance by an independent reader *program* is differential testing (another family) and is not claimed; whole-header composition is argued from the per-function contracts (DESIGN.md 7).",
+    "DESIGN.md 7 (C07)",
+)
